@@ -34,7 +34,14 @@ def specs(tier):
                 for rel in ("two", "two-files"):
                     for r in PRIVATE_READS[which] if tier == "quick" else PRIVATE_READS_T[which]:
                         for b in t:
-                            out.append({"fam": fam, "which": which, "relation": rel, "op1": r, "op2": b, "ctx": ["backend", cap], "variants": False})
+                            out.append({"fam": fam, "which": which, "relation": rel, "op1": r, "op2": b, "ctx": ["backend", cap], "variants": False, "ignore_values": [1]})
+        # a buffer that is exactly full when the threads start ("tight"): the second thread's
+        # object has a buffered modification, anything entering the buffer next forces a flush
+        for which in ("dict", "list"):
+            for rel in ("two-files", "two"):
+                for b in MUT[which]:
+                    for a in PRIVATE_READS[which] + MUT[which][:4]:
+                        out.append({"fam": fam, "which": which, "relation": rel, "op1": a, "op2": b, "ctx": ["backend", "tight"], "variants": False, **({"ignore_values": [1]} if a in PRIVATE_READS[which] else {})})
     return out
 
 
@@ -43,7 +50,8 @@ def fingerprint(r):
     v = r.get("violation", {})
     o = v.get("outcome") or {}
     return {"kind": v.get("kind"), "relation": s["relation"], "ops": sorted({s["op1"], s["op2"]}), "family": s["fam"], "capacity": s["ctx"][1], "buffered": True,
-            "writer": [x for x in (s["op1"], s["op2"]) if x in ("clear", "reset")][:1] or None, "exit": o.get("exit"), "size": o.get("size")}
+            "writer": [x for x in (s["op1"], s["op2"]) if x in ("clear", "reset")][:1] or None, "exit": o.get("exit"), "size": o.get("size"),
+            "private_read": bool(s.get("ignore_values")), "reader_raised": (o.get("r1") or [None, None])[1] if (o.get("r1") or [None])[0] == "exc" and s.get("ignore_values") else None}
 
 
 def main(tier, seed):
